@@ -57,7 +57,12 @@ func main() {
 			"infos), failed-tx map, target bits, nonce, term fields -> must verify; every single-field mutant of the schema walk (as is, and with the id recomputed but the signature kept), "+
 			"body edits (insert a fresh transaction / a DUPLICATE of each existing one at every position, drop each, swap each adjacent pair, change each id; merkle tree field recomputed or "+
 			"not), re-signing by another key with the proposer kept -> must be rejected unless the field is outside the three bindings (height, in_trunk, next_hash, merkle_tree list, "+
-			"failed-tx keys, transaction content other than its id); a case = one (block, mutant, mode); non-trivial = mutant of a bound field")
+			"failed-tx keys, transaction content other than its id); a case = one (block, mutant, mode); non-trivial = mutant of a bound field. "+
+			"VERIFICATION HISTORY (history.go): forgeries that borrow fields (identity, key, id, signature, body, root, header fields) from ANOTHER honest block, as is / id recomputed / signed again by either key, "+
+			"each verified on one ledger instance right after the honest blocks it borrows from (four orders) -> refused whenever a binding of the statement is broken, whatever was verified before "+
+			"(differential against a ledger instance without history); honest blocks still verify afterwards. "+
+			"SERVED BLOCKS (served.go): a producer confirms honest blocks (with trunk switches) while readers fetch tip / recent blocks through QueryBlock / QueryBlockByHeight and keep the served object "+
+			"across the next confirmations -> every served block verifies and holds its recorded body at every look")
 	defer sn.CleanupScratch()
 	n, err := sn.NewNode(sn.DefaultConfig())
 	if err != nil {
@@ -231,6 +236,8 @@ func main() {
 			}
 		}
 	}
+	historyPart(r, n)
+	servedPart(r)
 	enginePart(r)
 	hist.HostilePeerRounds(r, "integrity")
 	// a block without transactions: the statement quantifies over 0..n transactions; a node never formats one
